@@ -2303,3 +2303,104 @@ Proof.
     + intros _. split; [reflexivity|]. intros c. unfold s1. cbn -[Nat.eqb]. unfold updN, th. rewrite Nat.eqb_refl. cbn. apply Spt.
     + rewrite Et'. change (evs t ([EStart] ++ tail')) with ((t, EStart) :: evs t tail'). cbn [fold_left]. exact Rf.
 Qed.
+
+Lemma E_init : forall scr, ERel ENone (winit scr) m14_0.
+Proof.
+  intro scr.
+  assert (E : forall x, slab_get (mkSlab (fun _ => SVac 0) 0 0) x = None).
+  { intro x. unfold slab_get. cbn. destruct ((0 <=? x) && (x <? 0)); reflexivity. }
+  assert (Tp : forall u, tpipe (thr (winit scr) u) = -1) by (intro u; reflexivity).
+  assert (Nw : forall u, ~ wkr (winit scr) u) by (intros u [_ W]; rewrite Tp in W; lia).
+  constructor; cbn [m14_0 m14_bad m14_b m14_owner m14_lsend m14_lsdone m14_fwd m14_term m14_panic m14_exited mb0 b_nthr on_pipe memZ existsb get_tid].
+  - reflexivity.
+  - reflexivity.
+  - intros t q H. discriminate H.
+  - intros u q. split; [intro H; discriminate H|intros [_ [A B]]; rewrite Tp in A; lia].
+  - intros u u' H. exfalso. exact (Nw u H).
+  - intros u H. exfalso. exact (Nw u H).
+  - intros q H. cbn in H. discriminate H.
+  - intros q _. cbn. repeat split; auto. intros x G. change (sl (winit scr)) with (mkSlab (fun _ => SVac 0) 0 0) in G. rewrite E in G. discriminate G.
+  - intros q [[m0 [ms [tm H]]]|[m0 [d H]]]; cbn in H; destruct H.
+  - intros x y q G. change (sl (winit scr)) with (mkSlab (fun _ => SVac 0) 0 0) in G. rewrite E in G. discriminate G.
+  - intros u H. exfalso. exact (Nw u H).
+  - intros u x H. exfalso. exact (Nw u H).
+  - intros q x [].
+  - intros q H. discriminate H.
+  - intros m0 q H. cbn in H. destruct H.
+  - intros q [m0 [ms [b H]]]. cbn in H. destruct H.
+  - intros i r0 j H. cbn in H. discriminate H.
+  - intros u j _ H. cbn in H. destruct H.
+  - intros u H. exfalso. exact (Nw u H).
+  - intros u q m0 a b H. cbn in H. destruct a; discriminate H.
+  - intros m0 q ms b H. cbn in H. destruct H.
+  - intros u H. exfalso. exact (Nw u H).
+  - intros q H. discriminate H.
+Qed.
+
+Definition pnew_ok (tr : otrace) : Prop := forall t q, In (t, ECmd (CPNew q)) tr -> 0 <= q.
+
+Theorem wrun_E : forall sched st m,
+  AllInv st -> SpInv st -> BRel st (m14_b m) -> ERel ENone st m -> pnew_ok (flatten (snd (wrun st sched))) ->
+  AllInv (fst (wrun st sched)) /\
+  BRel (fst (wrun st sched)) (m14_b (fold_left m14r_step (flatten (snd (wrun st sched))) m)) /\
+  ERel ENone (fst (wrun st sched)) (fold_left m14r_step (flatten (snd (wrun st sched))) m).
+Proof.
+  induction sched as [|t rest IH]; intros st m A Sp B R Hok; [cbn; auto|].
+  cbn [wrun] in *.
+  destruct (wstep st t) as [st1 ev] eqn:E.
+  destruct (wrun st1 rest) as [st2 tr] eqn:Er. cbn [fst snd] in *.
+  rewrite flatten_cons in *. rewrite fold_left_app.
+  assert (Hq : forall q, In (ECmd (CPNew q)) ev -> 0 <= q).
+  { intros q Hin. apply (Hok t q). apply in_or_app. left. unfold evs. apply in_map_iff. exists (ECmd (CPNew q)). auto. }
+  pose proof (wstep_E st m t st1 ev A Sp B R E Hq) as R1.
+  pose proof (wstep_All st t st1 ev A E) as A1.
+  assert (Sp1 : SpInv st1) by (destruct A as [[_ [P _]] _ _ _ _ _ _ _ _ _]; exact (wstep_Sp st t st1 ev P Sp E)).
+  assert (B1 : BRel st1 (m14_b (fold_left m14r_step (evs t ev) m))).
+  { rewrite m14r_b_fold. destruct A as [M _ _ _ _ _ X Y _ _]. exact (wstep_B st _ t st1 ev M X Y B E). }
+  specialize (IH st1 _ A1 Sp1 B1 R1). rewrite Er in IH. cbn [fst snd] in IH. apply IH.
+  intros u q Hin. apply (Hok u q). apply in_or_app. right. exact Hin.
+Qed.
+
+Lemma In_memZ : forall x l, In x l -> memZ x l = true.
+Proof. intros x l H. unfold memZ. apply existsb_exists. exists x. split; [exact H|apply Z.eqb_refl]. Qed.
+
+(** C14, replies / termination half, trace form.  On every run of the model whose [pnew] commands name
+    non-negative pipes: [fwd_recv] gets exactly the replies that [send] queued, in order (a prefix of them at every
+    moment), never after [fwd_term]; [fwd_term] is called at most once per pipe, with the panic flag of the worker;
+    and at quiescence every [send] that returned has been forwarded and every worker that exited has had its
+    [fwd_term]. *)
+Theorem C14r_monitor : forall scr sched,
+  pnew_ok (flatten (wtrace scr sched)) -> C14r_ok (flatten (wtrace scr sched)) = true.
+Proof.
+  intros scr sched Hok. unfold wtrace in *.
+  destruct (wrun_E sched (winit scr) m14_0 (All_init scr) (Sp_init scr) (mb0_rel scr) (E_init scr) Hok) as [A [B R]].
+  set (st := fst (wrun (winit scr) sched)) in *.
+  set (m := fold_left m14r_step (flatten (snd (wrun (winit scr) sched))) m14_0) in *.
+  unfold C14r_ok. fold m. cbn zeta.
+  rewrite (e_bad _ st m R). cbn [negb andb].
+  destruct (b_exit (m14_b m)) eqn:Ee; [|reflexivity]. destruct (b_notif (m14_b m)) eqn:En; [reflexivity|]. destruct (b_cur (m14_b m)) eqn:Ec; [|reflexivity].
+  cbn [negb andb].
+  assert (Eq : mb_quiescent (m14_b m) = true) by (unfold mb_quiescent; rewrite Ec, Ee, En; reflexivity).
+  assert (Rs : reachable st) by (exists scr, sched; reflexivity).
+  destruct A as [[I [P Wf]] _ _ _ _ Q X _ _ _].
+  pose proof (mbq_quiescent st _ B X P Eq) as Qs.
+  pose proof (drops_not_stranded st Rs Qs) as Dl.
+  assert (Qm : mcont st = []) by (destruct Qs as [_ [Qm _]]; exact Qm).
+  assert (Cur : forall t, (t < nthr st)%nat -> tcur (thr st t) = None).
+  { intros t Ht. rewrite <- (br_cur st _ B t Ht), Ec. reflexivity. }
+  apply andb_true_iff. split.
+  - apply forallb_forall. intros [q x] Hin. cbn [fst snd].
+    pose proof (e_lsdone _ st m R q x Hin) as L. rewrite Qm in L. cbn [ufw flat_map app] in L.
+    assert (Pq : precvq (pps st q) = []).
+    { apply (replies_not_stranded st q Rs Qs). intros t bm a b Hc.
+      destruct (pc2 st Q t bm a b q Hc) as [_ [_ [Z0 _]]]. apply Z0.
+      destruct (le_lt_dec (nthr st) t) as [Hge|Hlt]; [|apply Cur; exact Hlt].
+      exfalso. destruct P as [_ P]. destruct (P t Hge) as [Z1 _]. rewrite Z1 in Hc. destruct Hc. }
+    rewrite Pq, app_nil_r in L. apply In_memZ. exact L.
+  - apply forallb_forall. intros q Hin. apply In_memZ in Hin.
+    destruct (e_exited _ st m R q Hin) as [T|[[x [Hx _]]|[Hx|[m0 [ms [b Hx]]]]]]; [exact T| | |].
+    + exfalso. unfold pipeline in Hx. fold (mcont st) in Hx. rewrite Dl, Qm in Hx. destruct Hx.
+    + exfalso. rewrite Qm in Hx. destruct Hx.
+    + exfalso. rewrite Qm in Hx. destruct Hx.
+Qed.
+Print Assumptions C14r_monitor.
